@@ -56,7 +56,11 @@ RULE = ("case = (kind of real object, one program (list of packets cut into piec
         "actions, choosing at every point among the actions enabled in the implementation's current state (one action "
         "then run-until-idle; and batches of two actions followed by one iteration), for 2 and 3 tasks; random longer "
         "scripts with batches of up to 3 actions on top.  Non-trivial = at some snapshot one task is suspended inside "
-        "the transport while another one is pending (contention) .")
+        "the transport while another one is pending (contention).  TLS kinds: programs of packets cut into 1-3 chunks "
+        "(send_all / send_all_from_iterable) on the real AsyncTLSStreamTransport with a real stdlib TLS peer, observable = "
+        "plaintext decrypted by the peer per underlying send.  Thread kinds: real threads on TCPNetworkClient / "
+        "UDPNetworkClient, every socket.send parked until the script releases it (scripted partial writes), some senders with a "
+        "short lock timeout; compared on the packets the peer finally received.")
 TRUSTED = ["hand-written models coq/Conc/FairLock.v, Guard.v, SendSerial.v; the asyncio ready-queue discipline encoded in "
            "coq/Run/C12.v (FIFO, one wake-up per task, cancellation wins over completion)",
            "asyncio.Lock (CPython) is not modelled separately: the clients on the asyncio backend use it and are compared "
